@@ -78,8 +78,10 @@ def oracle_case(case, obs):
                     (describe(op), k, case.get("kind", "?"), idx))
         ex = o.get("extra", {})
         if op["op"] == "deepcopy" and o["exc"] is None:
-            if not ex.get("equal", True) or not ex.get("same_snap", True):
-                what = "copy.deepcopy of env[%d] is not equal to its original" % op["arg"]
+            # the property's word is "equal": the library's own ==.  A difference of the
+            # harness's snapshots while == holds is only noted (coverage["deepcopy_snapshot_differs"]).
+            if not ex.get("equal", True):
+                what = "copy.deepcopy of env[%d] is not equal (==) to its original" % op["arg"]
             elif not ex.get("unshared", True):
                 what = "copy.deepcopy of env[%d] shares mutable state with it at %s" % (op["arg"], ex.get("common"))
         if op["op"] in REFUSAL_OPS and ex.get("is_prop"):
@@ -200,6 +202,9 @@ def check(run):
     # ---- oracle on everything
     for c, r in zip(cases, impl):
         run.violations += oracle_case(c, r)
+    run.coverage["deepcopy_snapshot_differs"] = sum(
+        1 for c, r in zip(cases, impl) for op, o in zip(c["ops"], r.get("ops", []))
+        if op["op"] == "deepcopy" and o["exc"] is None and o.get("extra", {}).get("equal") and not o["extra"].get("same_snap", True))
     hung = [(c, r) for c, r in zip(cases, impl) if any(o.get("timeout") for o in r.get("ops", []))]
     if hung:
         c, r = hung[0]
